@@ -70,27 +70,29 @@ CLAIMED = {
    technique="Coq proof (multiset conservation invariant by induction over histories) + correspondence",
    ref="5 (C16)"),
  "C01": dict(
-   text="PARTIAL. Proved (Properties_C01.v, closed under the global context), for all values: the text of config_write "
-        "is the concatenation of pieces determined by tree and options, whose option-free content is the tree's token "
-        "content; every kind of piece in front of any byte that can follow it is consumed by one step of the compiled "
-        "scanner (flex automaton of the generated tables) and yields exactly its token and value - %d, %lldL, 0x%X, "
-        "0x%llXL over the whole 32/64-bit range, true/false, API-valid names (unless they spell a boolean keyword: F2), "
-        "punctuation, blanks, newlines - by class certificates (ClassCheck/ClassCert: every word of a regular class "
-        "followed by a permitted byte is one longest match by the expected rule; vm_compute certificate + soundness "
-        "proof, transported to the automaton by the C18 equivalence); a string literal as the writer escapes it is read "
-        "back byte for byte for every string over bytes 1..255 (induction through the STRING start condition); a float "
-        "rendering of format_double's syntax is read as strtod of that text; and assembled over the whole tree "
-        "(C01_written_text_tokens): for every writable tree and every option/tab/precision/format vector the scanner "
-        "reads the text of config_write as exactly the token stream of its pieces followed by end of input (adjacency "
-        "invariant by induction over the tree). NOT proved: the parser half (that token stream is parsed back into an "
-        "equivalent tree) and hence read(write c) equivalent to c with an identical second write. That end-to-end statement is decided on every run on the real library: rtrip = write, "
-        "read_string into a second configuration, dump, write again, over API-built and parsed trees x option vectors, "
-        "compared with the model line by line and, model-free, with the property's equivalence, an independent printf "
-        "rendering and the reference parser.",
+   text="Proved (Properties_C01.v, closed under the global context), for all values and all option/tab/precision/"
+        "default-format settings: C01_read_written - for every configuration whose tree is writable (documented scalar "
+        "types with values in range, floats whose rendering has format_double's syntax and does not overflow, strings "
+        "over bytes 1..255, members with API-valid names that are not boolean keywords) and has the shape the API "
+        "maintains (homogeneous scalar arrays, distinct valid member names), within the parser's nesting limit, "
+        "config_read_string(config_write(c)) returns CONFIG_TRUE and builds the equivalent tree: same nesting, names, "
+        "order, types, integer values with the effective format, booleans by truth value, byte-exact strings, each "
+        "float the strtod of its printf rendering. The proof goes through the compiled scanner and the parser model: "
+        "class certificates (ClassCheck/ClassCert: every word of a lexeme class followed by a permitted byte is one "
+        "longest match of the flex automaton by the expected rule; vm_compute certificate + soundness proof, "
+        "transported by the C18 equivalence), literal round trips for %d/%lldL/0x%X/0x%llXL over the whole range, the "
+        "string escape/unescape induction for every byte string, an adjacency invariant over the tree giving the "
+        "token stream of the whole text (C01_written_text_tokens), and an induction over the tree through "
+        "p_value/p_agg/p_elems/p_settings with the fuel p_config provides (ParseWrite.v). PARTIAL in one clause: "
+        "'writing the re-read configuration reproduces the same text' is not proved (it needs render-read-render "
+        "stability of every float, false for the class F1c); it is decided on every run. Tie and second clause: rtrip "
+        "= write, read_string into a second configuration, dump, write again, over API-built and parsed trees x option "
+        "vectors, compared with the model line by line and, model-free, with the property's equivalence, an "
+        "independent printf rendering and the reference parser.",
    note="Known findings F1 (float %f rendering cut at 60 characters), F1b (%g rounds above DBL_MAX), F1c (denormals "
         "unstable under %g), F2 (keyword-named members), F3 (nesting beyond the parser stack) are reported as "
         "KNOWN-FINDING; a case is attributed to them only when every message of that case falls into a recorded class.",
-   technique="Coq proof (class certificates by vm_compute with a soundness proof; induction over strings; digit-string arithmetic) + round-trip correspondence (partial)",
+   technique="Coq proof (class certificates by vm_compute with a soundness proof; inductions over strings and over the tree through scanner and parser) + round-trip correspondence (second write partial)",
    ref="5 (C01)"),
  "C17": dict(
    text="Coq theorems (Properties_C17.v, closed under the global context) over Cpp.v, the model of lib/libconfigcpp.c++ "
